@@ -6,6 +6,7 @@ require (
 	github.com/nspcc-dev/dbft v0.4.0
 	github.com/nspcc-dev/neo-go v0.121.0
 	go.uber.org/zap v1.27.1
+	golang.org/x/tools v0.44.0
 )
 
 require (
@@ -53,7 +54,6 @@ require (
 	golang.org/x/sys v0.45.0 // indirect
 	golang.org/x/term v0.43.0 // indirect
 	golang.org/x/text v0.37.0 // indirect
-	golang.org/x/tools v0.44.0 // indirect
 	google.golang.org/genproto/googleapis/rpc v0.0.0-20260414002931-afd174a4e478 // indirect
 	google.golang.org/grpc v1.82.1 // indirect
 	google.golang.org/protobuf v1.36.11 // indirect
